@@ -29,6 +29,22 @@ theorem cmpWord_spec {W : Nat} (s : Big) (r : Cmp) (x : Nat) (h : Inv W s) (hx :
     have hb2 : (s.idx != 0) = true := by simp [hi]
     cases r <;> simp [cmpSpec, hb1, hb2] <;> omega
 
+/-- The reversed comparisons `number OP x` agree with the mathematical comparison `number OP value`. -/
+theorem rcmpWord_spec {W : Nat} (s : Big) (r : Cmp) (x : Nat) (h : Inv W s) (hx : x < 2 ^ W) :
+    rcmpWord s r x = .ok (cmpSpec r x (s.val W)) := by
+  unfold rcmpWord
+  rw [cmpWord_spec s r.mirror x h hx]
+  congr 1
+  cases r
+  · rfl
+  · rfl
+  · rfl
+  · rfl
+  · show (s.val W == x) = (x == s.val W)
+    exact BEq.comm
+  · show (s.val W != x) = (x != s.val W)
+    simp only [bne, BEq.comm (a := x)]
+
 theorem isBig_spec {W : Nat} (s : Big) (h : Inv W s) : isBig s = decide (s.val W ≥ 2 ^ W) := by
   have h0 : 0 < s.words.length := Nat.lt_of_le_of_lt (Nat.zero_le _) h.idx_lt
   unfold isBig
